@@ -481,14 +481,16 @@ Definition defer (sp : spec) (s : st) (name : nat) (trig : option nat) : st * na
     match find_join_exec s name false with
     | Some tid =>
       (* existing and not WAITING: back to WAITING only if it completed before (F7a fix: a join
-         that is still running is left alone) and either never started (its preconditions are
-         evaluated again, e.g. after the rerun of a failed inbound task) or it lies on a cycle
+         that is still running is left alone) and either never started and can run now (its
+         preconditions have changed, e.g. after the rerun of a failed inbound task; F22 fix: a join
+         that still cannot run is not failed - and its routes followed - again) or it lies on a cycle
          (F7b fix: otherwise a late inbound branch of a partial join would run it again) and the
          trigger is not one that already triggered its previous run (F7c fix: recalculated
          commands, e.g. on resume); a completed join that is not re-armed registers a workflow
          completion check *)
       if is_completed (t_state (get_task s tid)) &&
-         (negb (has_execs s tid) || (can_be_reentered sp name && negb (triggered_by_known (get_task s tid) trig)))
+         ((negb (has_execs s tid) && negb (state_eqb (join_logical sp s name) ERROR)) ||
+          (can_be_reentered sp name && negb (triggered_by_known (get_task s tid) trig)))
       then (task_set_state s tid WAITING, tid, false)
       else (s, tid, is_completed (t_state (get_task s tid)))
     | None => (add_task s (mkTrow name WAITING false [] false false true (next_uid s) (trig_list trig)),
